@@ -218,8 +218,9 @@ bool World::writable(const VFd &f) const {
     case FD_UDP: return true;
     case FD_TCP:
       if (f.tstate == TS_FAILED) return true;
-      if (f.tstate != TS_ESTABLISHED) return false;
-      return f.send_windows.empty() || f.send_windows.front() > 0;
+      // an established socket always polls writable; a generated zero window then makes the next send() return EAGAIN
+      // (spurious writability is legal), after which the window entry is consumed
+      return f.tstate == TS_ESTABLISHED;
     case FD_PIPE_W: return true;
     default: return false;
   }
@@ -302,6 +303,7 @@ int sim_socket(int domain, int type, int proto) {
   VFd &f = W.alloc(base == SOCK_STREAM ? FD_TCP : FD_UDP);
   f.family = domain;
   if (type & SOCK_NONBLOCK) f.nonblock = true;
+  if (base == SOCK_STREAM && W.stat.count("cfg.default_chunking") && W.stat["cfg.default_chunking"]) { f.default_chunking = true; f.chunk_seed = f.fd; }
   W.log(C_SOCKET, f.fd, f.fd, 0, base, domain);
   W.bump(base == SOCK_STREAM ? "sock_tcp_opened" : "sock_udp_opened");
   return f.fd;
